@@ -139,6 +139,9 @@ type tcase struct {
 	// one fail (nothing of them reaches the peer).  Calls may then fail; one
 	// that reports success has its element on the wire all the same
 	failAt int
+	// the failure the transport reports looks like an expired deadline (a
+	// net.Error with Timeout() true) although no context of any call has ended
+	failTimeout bool
 	// token writers are closed a second time, later, while other calls are under way
 	closeTwice bool
 	routines   [][]*call // caller goroutines
@@ -163,7 +166,7 @@ func (tc tcase) ns() string {
 
 func (tc tcase) String() string {
 	var sb strings.Builder
-	fmt.Fprintf(&sb, "s2s=%v session=%q yields=%v Close()-from-another-goroutine-after-write=%d connection-breaks-at-write=%d token-writers-closed-twice=%v", tc.s2s, tc.negotiated, tc.yields, tc.closeAt, tc.failAt, tc.closeTwice)
+	fmt.Fprintf(&sb, "s2s=%v session=%q yields=%v Close()-from-another-goroutine-after-write=%d connection-breaks-at-write=%d (reported as a timeout: %v) token-writers-closed-twice=%v", tc.s2s, tc.negotiated, tc.yields, tc.closeAt, tc.failAt, tc.failTimeout, tc.closeTwice)
 	for g, r := range tc.routines {
 		fmt.Fprintf(&sb, "\n goroutine %d:", g)
 		for _, c := range r {
@@ -643,6 +646,7 @@ func genCase(t *rapid.T) tcase {
 		tc.closeAt = rapid.IntRange(0, 6).Draw(t, "closeAt")
 	} else if rapid.IntRange(0, 3).Draw(t, "connectionBreaks") == 0 {
 		tc.failAt = rapid.IntRange(0, 8).Draw(t, "failAt")
+		tc.failTimeout = rapid.Bool().Draw(t, "failTimeout")
 	}
 	ns := tc.ns()
 	s2sFrom := ""
@@ -877,6 +881,9 @@ func check(t interface {
 			runtime.Gosched()
 		}
 		if tc.failAt >= 0 && n >= tc.failAt {
+			if tc.failTimeout {
+				return wire.ErrTimeout
+			}
 			return wire.ErrInjected
 		}
 		return nil
@@ -1142,6 +1149,9 @@ func classify(tc tcase) (bool, []string) {
 	var classes []string
 	if tc.failAt >= 0 {
 		classes = append(classes, "connection-breaks-during-the-calls")
+		if tc.failTimeout {
+			classes = append(classes, "connection-failure-reported-as-timeout")
+		}
 	}
 	multiWrite, withStart, completion := false, false, false
 	for _, c := range tc.all() {
